@@ -114,6 +114,7 @@ class Interp:
         assert_is_effect=False,
         watch=(),
         mark_all=False,
+        local_mutations_ok=False,
     ):
         self.atom = atom
         self.effect_fn = effect
@@ -127,6 +128,8 @@ class Interp:
         self.watch = set(watch)  # call names recorded as ("CALL", name, call) even inside values
         self.fresh = {}  # locals bound to fresh container displays (kept symbolic)
         self.mark_all = mark_all  # snapshot-mark values assigned before any effect too
+        self.local_mutations_ok = local_mutations_ok  # in-place growth of fresh locals is not an effect
+        self.local_mutations = {}
 
     # ------------------------------------------------------------- expressions
     def sub(self, expr):
@@ -237,6 +240,14 @@ class Interp:
         return None if ex.kind == "fall" else ex
 
     def emit(self, st, original=None):
+        if self.local_mutations_ok and isinstance(st, ast.Expr) and isinstance(st.value, ast.Call):
+            f = st.value.func
+            if (
+                isinstance(f, ast.Attribute) and isinstance(f.value, ast.Name) and f.value.id in self.fresh
+                and f.attr in ("append", "extend", "add", "update", "insert", "setdefault")
+            ):
+                self.local_mutations.setdefault(f.value.id, []).append(st)
+                return
         tok = self.effect_fn(st, self)
         if tok is None:
             return
